@@ -6,6 +6,7 @@ import (
 	"math/bits"
 	"strconv"
 	"strings"
+	"time"
 
 	"github.com/projectcalico/calico/felix/markbits"
 
@@ -36,7 +37,10 @@ func exec(h *rt.H, s *state, op string) string {
 		s.got = nil
 		return "ok"
 	case "single":
-		v, err := s.m.NextSingleBitMark()
+		var v uint32
+		var err error
+		h.Deadline(20*time.Second, "alloc-never-returns", "NextSingleBitMark did not return (allocation must succeed or fail)",
+			map[string]any{"mask": s.mask, "allocated": len(s.got)}, func() { v, err = s.m.NextSingleBitMark() })
 		if err == nil {
 			// property oracle on the real code: distinct single bits inside the mask
 			if bits.OnesCount32(v) != 1 || v&s.mask != v {
@@ -58,7 +62,10 @@ func exec(h *rt.H, s *state, op string) string {
 	case "block":
 		k, _ := strconv.Atoi(w[1])
 		before := s.m.AvailableMarkBitCount()
-		mark, n := s.m.NextBlockBitsMark(k)
+		var mark uint32
+		var n int
+		h.Deadline(20*time.Second, "alloc-never-returns", "NextBlockBitsMark did not return (allocation must succeed or fail)",
+			map[string]any{"mask": s.mask, "allocated": len(s.got), "size": k}, func() { mark, n = s.m.NextBlockBitsMark(k) })
 		for i := 0; i < 32; i++ {
 			if b := uint32(1) << i; mark&b != 0 {
 				for _, g := range s.got {
